@@ -50,12 +50,18 @@ def encode(case):
     return hc.encode_case(case, _run(case).tables, fixes)
 
 
-STATS = {"known_defect_hits": 0, "closes": 0, "close_codes": {}, "reasons": {}}
+STATS = {"known_defect_hits": 0, "closes": 0, "close_codes": {}, "reasons": {}, "local_sends": 0,
+         "blocked_feed_header": 0, "resumed_streams": 0, "resumed_after_both_directions_ended": 0}
 
 
 def total_oracle(case):
     from aioquic.h3.connection import ErrorCode
     r = _run(case)
+    STATS["local_sends"] += r.local_sends
+    STATS["blocked_feed_header"] += r.blocked_calls
+    STATS["resumed_streams"] += r.resumed_calls
+    if r.resumed_calls and r.local_sends:
+        STATS["resumed_after_both_directions_ended"] += 1
     if r.exn is not None:
         sig = hc.exn_signature(r.exn)
         if sig in hc.known_signatures("C16"):
@@ -290,6 +296,94 @@ def _cert():
     return _CERT
 
 
+def staged_pair(half_rounds):
+    """A real client/server pair stopped after `half_rounds` one-way flights of the handshake (1 = the server has
+    the client's Initial only, 2 = the client has the server's first flight, ...): Initial / Handshake keys are
+    still active and the handshake is not confirmed."""
+    import ssl
+    from aioquic.buffer import Buffer
+    from aioquic.quic.configuration import QuicConfiguration
+    from aioquic.quic.connection import QuicConnection
+    from aioquic.quic.packet import pull_quic_header
+    cert, key = _cert()
+    cc = QuicConfiguration(is_client=True, alpn_protocols=["h3"])
+    cc.verify_mode = ssl.CERT_NONE
+    sc = QuicConfiguration(is_client=False, alpn_protocols=["h3"])
+    sc.certificate, sc.private_key = cert, key
+    c = QuicConnection(configuration=cc)
+    c.connect(("192.0.2.1", 4433), now=0.0)
+    s, now, step = None, 0.0, 0
+    while step < half_rounds:
+        for data, _a in c.datagrams_to_send(now):
+            if s is None:
+                hdr = pull_quic_header(Buffer(data=data), host_cid_length=8)
+                s = QuicConnection(configuration=sc, original_destination_connection_id=hdr.destination_cid)
+            s.receive_datagram(data, ("192.0.2.2", 1234), now)
+        step += 1
+        if step >= half_rounds:
+            break
+        for data, _a in s.datagrams_to_send(now):
+            c.receive_datagram(data, ("192.0.2.1", 4433), now)
+        step += 1
+        now += 0.01
+    return c, s
+
+
+def h3_reason(name_len):
+    """(code, reason) the H3 layer really passes to close() for a header name of `name_len` bytes with an uppercase
+    letter, received on a push stream / request stream."""
+    import pylsqpack
+    _e, b = pylsqpack.Encoder().encode(0, hc.REQ + [(b"A" * name_len, b"v")])
+    r = hc.run_impl({"client": False, "dgram": True, "ops": [["s", 0, hc.frame(1, b).hex(), 1]]})
+    return r.quic.closes[0] if r.quic.closes else None
+
+
+def check_early_close(ctx, long_ok):
+    """Close while Initial / Handshake keys are still in use (handshake not confirmed) with the reason phrases the H3
+    layer produces: datagrams_to_send must not raise, must produce a closing datagram, none larger than the path MTU.
+    Reasons above ~1000 characters are only tried when the oversize-reason defect (C16-fix-5) is absent."""
+    st = {"tried": 0, "failures": 0, "stages": {}}
+    lens = [0, 40, 300, 600, 900] + ([1200, 3000] if long_ok else [])
+    reasons = []
+    for n in lens:
+        cr = h3_reason(n) if n else (0x10e, "")
+        if cr is not None:
+            reasons.append((int(cr[0]), cr[1]))
+    reported = 0
+    for half_rounds in (1, 2, 3):
+        for side in (0, 1):
+            for code, reason in reasons:
+                conn = staged_pair(half_rounds)[side]
+                if conn is None or conn._handshake_confirmed:
+                    continue
+                keys = ",".join(sorted(e.name for e, cp in conn._cryptos.items() if cp.send.is_valid()))
+                st["stages"][keys] = st["stages"].get(keys, 0) + 1
+                st["tried"] += 1
+                bad = None
+                try:
+                    conn.close(error_code=code, reason_phrase=reason)
+                    d = conn.datagrams_to_send(1.0)
+                    if not d:
+                        bad = ("no closing datagram produced", {"defect": "no-closing-datagram", "stage": "handshake-unconfirmed"})
+                    elif max(len(x[0]) for x in d) > 1200:
+                        bad = ("closing datagram of %d bytes" % max(len(x[0]) for x in d),
+                               {"defect": "closing-datagram-too-large", "stage": "handshake-unconfirmed"})
+                except Exception as e:  # noqa
+                    bad = ("datagrams_to_send raises %s" % type(e).__name__,
+                           {"exception": type(e).__name__, "site": "datagrams_to_send", "stage": "handshake-unconfirmed"})
+                if bad:
+                    st["failures"] += 1
+                    if reported < 2:
+                        reported += 1
+                        ctx.violation("impl-violation",
+                                      "early-close: %s closing before the handshake is confirmed (send keys: %s) with the "
+                                      "%d-character reason of the H3 layer: %s"
+                                      % ("client" if side == 0 else "server", keys, len(reason), bad[0]),
+                                      {"suite": "early-close", "half_rounds": half_rounds, "side": side, "code": code,
+                                       "reason": reason}, signature=bad[1])
+    return st
+
+
 def real_pair():
     """A real client/server QuicConnection pair with the handshake completed (in memory, virtual time)."""
     import ssl
@@ -382,7 +476,8 @@ def run(ctx):
     global _H0_FIXED
     _CACHE.clear()
     _H0_FIXED = None
-    STATS.update({"known_defect_hits": 0, "closes": 0, "close_codes": {}, "reasons": {}})
+    STATS.update({"known_defect_hits": 0, "closes": 0, "close_codes": {}, "reasons": {}, "local_sends": 0,
+                  "blocked_feed_header": 0, "resumed_streams": 0, "resumed_after_both_directions_ended": 0})
     fixes, present = hc.detect(force=True)
     nprobe = hc.report_probes(ctx, "C16")
     if not h0_fixed():
@@ -398,11 +493,13 @@ def run(ctx):
     s.run(table, "table")
     cases = [hc.gen_connection_case(rng, malformed=rng.choice([0.3, 0.6, 0.9]))[0] for _ in range(ctx.n(12000, 150000))]
     s.run(cases, "malformed")
+    s.run([hc.gen_blocked_closed_case(rng) for _ in range(ctx.n(1500, 15000))], "blocked-closed")
     h0 = h0_suite(ctx)
     h0.run(corr.load_corpus("C16", h0.name), "corpus")
     h0.run(list(h0_exhaustive()), "exhaustive")
     h0.run(h0_gen(rng, ctx.n(3000, 30000)), "random")
     close = check_close_frames(ctx, 12 if not ctx.thorough else 60)
+    early = check_early_close(ctx, long_ok=not close["known_defect"])
     cov = corr.merge_coverage(
         [s, h0],
         "table: every frame type x declared length x available payload x FIN after valid prefixes on control / request / "
@@ -410,8 +507,11 @@ def run(ctx):
         "payloads, critical-stream rules; malformed: grammar-generated connections mutated (byte flips, deletions, "
         "truncations, inserted bad frames, garbage QPACK streams) randomly split and interleaved; H0: request lines over a "
         "token alphabet, exhaustive up to 4 tokens; distinct = distinct token encoding",
-        {"table_cases": len(table), "close_frames": close, "known_defect_hits": STATS["known_defect_hits"],
+        {"table_cases": len(table), "close_frames": close, "early_close": early, "known_defect_hits": STATS["known_defect_hits"],
          "closes_seen": STATS["closes"], "close_codes": STATS["close_codes"], "model_fix_flags": fixes,
+         "local_sends": STATS["local_sends"], "blocked_feed_header": STATS["blocked_feed_header"],
+         "resumed_streams": STATS["resumed_streams"],
+         "cases_resumed_with_local_end": STATS["resumed_after_both_directions_ended"],
          "h0_fixed": h0_fixed(), "defects_present": [p["id"] for p in present], "probe_violations": nprobe})
     _CACHE.clear()
     return cov
@@ -426,6 +526,14 @@ def replay(ctx, rep):
             return {"impl_tokens": out, "exception": repr(e)}
         r = hc.run_impl(c)
         return {"impl_tokens": r.out, "exception": repr(r.exn), "signature": hc.exn_signature(r.exn) if r.exn else None}
+    if isinstance(case, dict) and case.get("suite") == "early-close":
+        conn = staged_pair(case["half_rounds"])[case["side"]]
+        try:
+            conn.close(error_code=case["code"], reason_phrase=case["reason"])
+            d = conn.datagrams_to_send(1.0)
+            return {"datagram_sizes": [len(x[0]) for x in d]}
+        except Exception as e:  # noqa
+            return {"exception": repr(e)}
     if isinstance(case, dict) and case.get("suite") == "close":
         cr = oversized_reason() if "reason" not in case else (case["code"], case["reason"])
         e = close_emittable(int(cr[0]), cr[1])
